@@ -6,6 +6,10 @@
         <answer> ::= ok <ty> <bits> | trap | fuel | stuck <why>
     c01 op <binop> <ty> <bits> <bits>        →  <answer>      (one operator on two operands)
     c01 un <neg|not> <ty> <bits>             →  <answer>
+    c01 dce <cfg>                            →  ok <cfg> | panic | fuel
+        the Lean model of `mir/dead_code.rs` (`RotoV.Dce.dce`) on a CFG skeleton:
+        <cfg> ::= <block>;<block>;…     <block> ::= <label>:<ins>,<ins>,…
+        <ins> ::= o | r | j<label> | s<label>.<label>…[e<label>]
 
   Program s-expressions (printed by harness/src/bin/c01.rs):
     prog  ::= (prog fn…)
@@ -21,6 +25,7 @@
 import Driver.Util
 import RotoV.Model.Spec
 import RotoV.Model.NativeFloat
+import RotoV.Model.Dce
 
 namespace Driver.C01
 open RotoV RotoV.Spec
@@ -175,8 +180,57 @@ def splitTuples (args : List String) : List (List String) :=
     ([], [])
   (cur.reverse :: done).reverse
 
+/-! ### `c01 dce` -/
+
+abbrev DInstr := Dce.Instr Unit Unit Unit
+
+def parseIns (s : String) : Option DInstr :=
+  match s.toList with
+  | ['o'] => some (.other ())
+  | ['r'] => some (.ret ())
+  | 'j' :: rest => (String.ofList rest).toNat?.map .jump
+  | 's' :: rest =>
+    let body := String.ofList rest
+    let (brs, dflt) := match body.splitOn "e" with
+      | [b, d] => (b, some d)
+      | _ => (body, none)
+    let labels := (brs.splitOn ".").filter (· ≠ "")
+    match labels.mapM (·.toNat?), dflt with
+    | some ls, none => some (.switch () (ls.zipIdx.map fun (l, i) => (i, l)) none)
+    | some ls, some d => d.toNat?.map fun d => .switch () (ls.zipIdx.map fun (l, i) => (i, l)) (some d)
+    | none, _ => none
+  | _ => none
+
+def parseBlock (s : String) : Option (Dce.Block Unit Unit Unit) :=
+  match s.splitOn ":" with
+  | [l, is] => do
+    let label ← l.toNat?
+    let instrs ← ((is.splitOn ",").filter (· ≠ "")).mapM parseIns
+    some { label, instrs }
+  | _ => none
+
+def showIns : DInstr → String
+  | .other _ => "o"
+  | .ret _ => "r"
+  | .jump l => s!"j{l}"
+  | .switch _ br d =>
+    "s" ++ ".".intercalate (br.map fun p => toString p.2) ++ (match d with | some d => s!"e{d}" | none => "")
+
+def showCfg (cfg : Dce.Cfg Unit Unit Unit) : String :=
+  ";".intercalate (cfg.map fun b => s!"{b.label}:" ++ ",".intercalate (b.instrs.map showIns))
+
+def handleDce (text : String) : String :=
+  match ((text.splitOn ";").filter (· ≠ "")).mapM parseBlock with
+  | none => "bad-cfg"
+  | some cfg =>
+    match Dce.dce cfg with
+    | .ok cfg' => "ok " ++ showCfg cfg'
+    | .panic => "panic"
+    | .fuel => "fuel"
+
 def handle (args : List String) : String :=
   match args with
+  | ["dce", text] => handleDce text
   | "run" :: hex :: rest =>
     match parseProg hex with
     | none => "bad-program"
